@@ -13,11 +13,12 @@ NOTE_COMMON = ("Trusted: Lean 4.33.0 kernel (axioms propext, Classical.choice, Q
 T_CORR = " + regenerated constants (extract.py) + model/implementation correspondence (compiled Lean driver vs real code on generated inputs) + Spec oracle on the real outputs"
 
 CLAIMED = {
-    "C01": ("Lean 4 theorem C01_wire (format output decodes to the requested frame, minimal length form, for all payloads/keys/opcodes)" + T_CORR,
+    "C01": ("Lean 4 theorems C01_wire (format output decodes to the requested frame, minimal length form, for all payloads/keys/opcodes) and C01_send (one key draw, that key on the wire, return value = bytes written, under every short-write pattern)" + T_CORR,
             "Proof: `C01_wire` — for every payload < 2^63 bytes, FIN in {0,1}, opcode in the generated table and 4-byte key, ABNF.format's "
             "output is read back by the RFC decoder as exactly that frame with MASK set, that key, the minimal length form, the payload, nothing "
-            "left, and length = header+4+payload; masking = positional XOR and an involution. Key drawn once per frame, return value, short "
-            "writes (C12_one_frame_per_send), str payloads, trace on/off and API wrappers are tied by correspondence/oracle over every length "
+            "left, and length = header+4+payload; masking = positional XOR and an involution; `C01_send`: one send draws exactly one key, the wire "
+            "gains exactly that frame with that key, the return value is its length, for every short-write pattern. The default OS-randomness "
+            "source, str payloads, trace on/off and API wrappers are tied by correspondence/oracle over every length "
             "0..300, 65400..65700 (thorough: 0..70000).", "Not modelled: latin-1 path for str payload with non-text opcode; non-ASCII str keys.", "DESIGN.md §6 C01"),
     "C02": ("Lean 4 theorems C02_decode / C02_stream (staged parser = RFC decoder over any chunking, exact consumption, any number of frames) + spec_decode_encode" + T_CORR,
             "Proof: `C02_decode` — from a cleared parser on a live connection, for every chunking of the pending bytes, if they start with a "
